@@ -433,9 +433,21 @@ def compare(case, got, mv):
     return None
 
 
+def eval_sharded(tag, header, exprs, shard, jobs, timeout=1500):
+    """C.coq_eval_sharded with a per-shard timeout that leaves room for a loaded machine."""
+    from concurrent.futures import ThreadPoolExecutor
+    shards = [exprs[i:i + shard] for i in range(0, len(exprs), shard)]
+    with ThreadPoolExecutor(max_workers=jobs) as ex:
+        futs = [ex.submit(C.coq_eval, "%s_s%d" % (tag, k), header, sh, timeout) for k, sh in enumerate(shards)]
+        out = []
+        for f in futs:
+            out += f.result()
+    return out
+
+
 def start_sweep(ctx, ex):
     """Launch the sweep's child processes; returns the futures and the parameters."""
-    T, Tm, T0 = (400, 200, 40) if ctx.quick else (3000, 1000, 100)
+    T, Tm, T0 = (350, 150, 40) if ctx.quick else (3000, 500, 80)
     large = [[1, 2 ** 24 + 1], [3, 2 ** 24 + 1], [1000001, 2 ** 24 + 1], [5, 2 ** 25 + 7], [2 ** 24, 2 ** 24],
              [7, 2 ** 24]]
     payload = {"mode": "sweep", "T": T, "T0": T0, "large": large, "large_e2e": None if ctx.quick else 2 ** 24 + 1}
@@ -444,8 +456,8 @@ def start_sweep(ctx, ex):
     order = sorted(ns, key=lambda n: (n % nsh, n))             # balance the work (proportional to n) over the shards
     shard = -(-len(order) // nsh)
     f_impl = ex.submit(C.run_impl, "c05", payload)
-    f_model = ex.submit(C.coq_eval_sharded, "C05sw", HEADER, ["sweep_n %d" % n for n in order], shard, nsh)
-    f_e2e = ex.submit(C.coq_eval_sharded, "C05e2e", HEADER,
+    f_model = ex.submit(eval_sharded, "C05sw", HEADER, ["sweep_n %d" % n for n in order], shard, nsh)
+    f_e2e = ex.submit(eval_sharded, "C05e2e", HEADER,
                       ["e2e_bad %d" % n for n in range(1, T0 + 1)] + ["large_probe %d %d" % (c, n) for c, n in large],
                       max(1, -(-(T0 + len(large)) // 6)), 6)
     return {"T": T, "Tm": Tm, "T0": T0, "large": large, "payload": payload, "impl": f_impl, "model": f_model, "e2e": f_e2e}
@@ -453,7 +465,13 @@ def start_sweep(ctx, ex):
 
 def finish_sweep(ctx, sw):
     T, Tm, T0, large, payload = sw["T"], sw["Tm"], sw["T0"], sw["large"], sw["payload"]
-    (impl, info), model, e2e = sw["impl"].result(), sw["model"].result(), sw["e2e"].result()
+    impl, info = sw["impl"].result()
+    try:
+        model, e2e = sw["model"].result(), sw["e2e"].result()
+    except RuntimeError as e:
+        ctx.report("evaluation of the model sweep inside Coq failed or timed out: %s" % str(e)[-600:],
+                   {"stage": "correspondence", "correspondence": "Model/K5_Float.v sweep (vm_compute)"}, found_input=False)
+        model, e2e = [], [[]] * T0 + [(True, True)] * len(large)
     if impl is None:
         ctx.report("sweep child died (rc=%s): %s" % (info["rc"], info["tail"][-400:]), {"stage": "impl-crash", "case": payload},
                    found_input=False)
@@ -535,7 +553,7 @@ def run(ctx, replay=None):
         finish_sweep(ctx, sw)
         C.gate_violation(ctx)
         return ctx.finish("proof")
-    n = 500 if ctx.quick else 6000
+    n = 400 if ctx.quick else 4000
     cases = [replay["case"]] if replay else CORPUS + [gen_case(ctx.rng) for _ in range(n)]
     impl, info, model = evaluate(cases)
     if sw:
